@@ -19,6 +19,9 @@
 //     by the same sentence not a pointer — for the smudge pass-through clause.
 //   - "success status" of a non-pointer smudge = exit 0 / status=success; what
 //     is written to stderr is not judged.
+//   - under an injected environment fault (spool area unusable, faultcase.go) the
+//     pass-through clause is read as: unchanged bytes with success, or a REPORTED
+//     failure; only success with other bytes is a violation.
 package main
 
 import (
@@ -35,6 +38,7 @@ import (
 type job struct {
 	F *fcase
 	G *gcase
+	S *scase
 }
 
 var oneshotP = []string{"whole", "c1", "c7", "cmid", "crands", "clast", "c100"}
@@ -61,13 +65,14 @@ func trigger(c fcase, in input, delivery string) string {
 func main() {
 	run := evid.New("C08", "exploration")
 	defer sbx.RemoveBase()
-	run.Rule = "Inputs classified by construction: P = canonical pointers (ptrspec, random oid/size, 0-3 extension lines) and the frozen non-canonical spellings {CRLF, no final newline, +1/+3 trailing blank lines, hawser URL, git-media URL, empty file}, all < 1024 bytes; N = (a) a class-P text + {x, blank+unknown line, #-comment line, NUL+random payload to 1023/1024/1025/5000 bytes}, (b) canonical pointer padded to >= 1024 bytes with blank lines / spaces / comment lines (also text only after byte 1024), (c) filt content classes {random, text LF/CRLF, zeros, pointer-prefix+payload, look-alike} x sizes {1,2,100,1023,1024,1025,4096,70000}; D = debatable spellings (run, not judged). Delivery: one-shot clean/smudge through a pipe with write(2) plans {whole, 1, 7, 100, 512, 1023, 1024, 1025, 4096, random, first write ends exactly at the end of the pointer text, pointer text split in the middle, both, all-but-last-byte} with drain-aware pauses; filter-process through an independent pkt-line client with packet sizes {1, 7, 100, 65516, random, boundary at end of pointer text}; working-tree file at the path {absent, same, 10 bytes, 5000 unrelated bytes (class P)}; optionally one LFS extension configured. Oracle P: clean output == input, object count unchanged, exit 0. Oracle N: clean output is a canonical pointer naming SHA-256/size of a stored object equal to the input, smudge(clean(x)) == x, and smudge(x) == x with success. Git level: repository with LFS files of 8 sizes + look-alikes + pointer blobs in every frozen spelling, cloned / re-checked-out with smudging skipped (env or config), then status, add -A, stash, stash pop, commit -a, add --renormalize, commit -a with all pointer files made stat-dirty before each step; index and HEAD blob ids (plain git) must stay the original pointer blob ids, status clean, object count unchanged; process filter and one-shot filters. Class = all coordinates. A violation seen with a non-default delivery is re-run with the default delivery (same input) and gets trigger delivery 'any-delivery' if it reproduces there."
+	run.Rule = "Inputs classified by construction: P = canonical pointers (ptrspec, random oid/size, 0-3 extension lines) and the frozen non-canonical spellings {CRLF, no final newline, +1/+3 trailing blank lines, hawser URL, git-media URL, empty file}, all < 1024 bytes; N = (a) a class-P text + {x, blank+unknown line, #-comment line, NUL+random payload to 1023/1024/1025/5000 bytes}, (b) canonical pointer padded to >= 1024 bytes with blank lines / spaces / comment lines (also text only after byte 1024), (c) filt content classes {random, text LF/CRLF, zeros, pointer-prefix+payload, look-alike} x sizes {1,2,100,1023,1024,1025,4096,70000}; D = debatable spellings (run, not judged). Delivery: one-shot clean/smudge through a pipe with write(2) plans {whole, 1, 7, 100, 512, 1023, 1024, 1025, 4096, random, first write ends exactly at the end of the pointer text, pointer text split in the middle, both, all-but-last-byte} with drain-aware pauses; filter-process through an independent pkt-line client with packet sizes {1, 7, 100, 65516, random, boundary at end of pointer text}; working-tree file at the path {absent, same, 10 bytes, 5000 unrelated bytes (class P)}; optionally one LFS extension configured. Oracle P: clean output == input, object count unchanged, exit 0. Oracle N: clean output is a canonical pointer naming SHA-256/size of a stored object equal to the input, smudge(clean(x)) == x, and smudge(x) == x with success. Git level: repository with LFS files of 8 sizes + look-alikes + pointer blobs in every frozen spelling, cloned / re-checked-out with smudging skipped (env or config), then status, add -A, stash, stash pop, commit -a, add --renormalize, commit -a with all pointer files made stat-dirty before each step; index and HEAD blob ids (plain git) must stay the original pointer blob ids, status clean, object count unchanged; process filter and one-shot filters. Spool-fault dimension of the smudge pass-through: non-pointer inputs (>= 1024 bytes and shorter) smudged through {fpclient smudge, fpclient smudge with can-delay, git checkout -- f and git cat-file --filters HEAD:f with the process filter, one-shot git lfs smudge, the two Git commands with one-shot filters only} x {no fault, .git/lfs/tmp a regular file, .git/lfs/tmp a directory of mode 0555 (left out where it does not stop the driver itself, e.g. as root), .git/lfs/tmp a dangling symbolic link, TMPDIR a regular file (must be irrelevant)}; oracle under a fault: success (status=success twice / exit 0) with output == input, or a reported failure; success with output != input is the violation. Class = all coordinates. A violation seen with a non-default delivery is re-run with the default delivery (same input) and gets trigger delivery 'any-delivery' if it reproduces there."
 	run.Assumptions = []string{
 		"class membership is by construction; the frozen non-canonical spellings were confirmed once against the pinned decoder (git lfs pointer --check --stdin/--file) and are data in inputs.go",
 		"pipe chunking with drain-aware pauses is a legal OS schedule; nothing is assumed about timing",
 		"debatable spellings (trailing spaces/tabs, blank-line padding below 1024, unknown keys, size 0, swapped keys, CR-only) are exercised but not judged",
 		"the Git-level scenario keeps smudging skipped for its whole duration (GIT_LFS_SKIP_SMUDGE=1 or --skip filter config), so no download can add objects",
 		"stderr text is never judged",
+		"a spool-area fault is in effect when the driver itself can no longer create a file in .git/lfs/tmp (probed after injection); an environment fault permits a reported failure in place of the pass-through",
 	}
 
 	var jobs []job
@@ -82,6 +87,13 @@ func main() {
 		c.Idx = len(jobs)
 		jobs = append(jobs, job{G: &c})
 	}
+	addS := func(c scase) {
+		c.Idx = len(jobs)
+		jobs = append(jobs, job{S: &c})
+	}
+	// fault kind "directory of mode 0555": only where it actually stops this process (not as root)
+	with0555 := mode0555Effective()
+	run.Set("spool_fault_mode_0555_effective", with0555)
 	rounds := run.N(1, 13)
 	k := 0
 	for round := 0; round < rounds; round++ {
@@ -200,6 +212,10 @@ func main() {
 				}
 			}
 		}
+		// ---- smudge pass-through with the spool area made unusable (faultcase.go)
+		for _, c := range spoolCases(round, run.Thorough(), with0555) {
+			addS(c)
+		}
 	}
 	run.Set("planned_cases", len(jobs))
 	run.SetMinEvaluations(len(jobs) * 9 / 10)
@@ -212,6 +228,9 @@ func main() {
 	weight := func(j job) int {
 		if j.G != nil {
 			return 5
+		}
+		if j.S != nil {
+			return 1
 		}
 		if j.F.Delivery == "c1" || j.F.Delivery == "pk1" {
 			return 4
@@ -232,9 +251,12 @@ func main() {
 			for j := range ch {
 				func() {
 					idx := 0
-					if j.F != nil {
+					switch {
+					case j.F != nil:
 						idx = j.F.Idx
-					} else {
+					case j.S != nil:
+						idx = j.S.Idx
+					default:
 						idx = j.G.Idx
 					}
 					defer func() {
@@ -243,9 +265,12 @@ func main() {
 						}
 					}()
 					seed := run.Seed*1000003 + int64(idx)
-					if j.F != nil {
+					switch {
+					case j.F != nil:
 						runFilterCase(run, *j.F, seed)
-					} else {
+					case j.S != nil:
+						runSpoolCase(run, *j.S, seed)
+					default:
 						runGitCase(run, *j.G, seed)
 					}
 				}()
@@ -301,6 +326,21 @@ func runFilterCase(run *evid.Run, c fcase, seed int64) {
 		run.Violation(evid.Sig{Symptom: v.Sym, Trigger: trigger(c, in, d)}, fmt.Sprintf("[%s %s] %s", trigger(c, in, d), v.Op, v.What), detail)
 	}
 	run.Case(fclass(c, in), map[string]any{"case": c, "input_len": len(in.B), "input_head": fmt.Sprintf("%q", sbx.Trunc(in.B, 160))})
+}
+
+func runSpoolCase(run *evid.Run, c scase, seed int64) {
+	o := obs{}
+	in, vs := execSpool(c, seed, o, run.Inconclusive)
+	flush(run, o)
+	for _, v := range vs {
+		detail := map[string]any{"case": c, "op": v.Op, "what": v.What, "input": inputWitness(in), "case_seed": seed,
+			"replay_hint": "commit bytes_base64 as dir/f.bin with the LFS filters disabled in a fresh repository with `*.bin filter=lfs` attributes, apply the fault named in the case to .git/lfs/tmp, then smudge through the driver named in the case"}
+		for k, x := range v.Extra {
+			detail[k] = x
+		}
+		run.Violation(evid.Sig{Symptom: v.Sym, Trigger: c.trigger()}, fmt.Sprintf("[%s %s] %s", c.trigger(), in.Kind, v.What), detail)
+	}
+	run.Case(fmt.Sprintf("spool/%s/%s/%s/%s/%s", c.Driver, c.Fault, in.Kind, in.Detail, c.Delivery), map[string]any{"case": c, "input_len": len(in.B), "input_head": fmt.Sprintf("%q", sbx.Trunc(in.B, 160))})
 }
 
 func runGitCase(run *evid.Run, c gcase, seed int64) {
